@@ -5,7 +5,7 @@ from evalutil import *
 
 ID = "C10"
 LEVEL = "proof"
-MODULES = ["H3Proofs.Props.C10", "H3Proofs.Props.C10Res1"]
+MODULES = ["H3Proofs.Props.C10", "H3Proofs.Props.C10Res1", "H3Proofs.Props.C10Valid"]
 THEOREMS = "auto"
 ASSUMPTIONS = ["model of cellsToDirectedEdge / getDirectedEdgeOrigin / getDirectedEdgeDestination / "
                "isValidDirectedEdge / originToDirectedEdges over generated bit macros, tied by exact correspondence",
